@@ -171,6 +171,16 @@ def call_ext(I: Any, name: str, args: List[Term], kwargs: Dict[str, Term], st: A
         sq_ = T.to_seq(args[0]) if _textlike(args[0]) else None
         if isinstance(n_, int) and n_ > 0 and sq_ is not None:
             return ("batched", sq_, n_)      # tuples of n consecutive items (bytes as ints, text as characters)
+    if name in ("builtins.any", "builtins.all") and len(args) == 1 and not kwargs:
+        from .interp import conj as _conj, disj as _disj, ite as _ite
+        a0 = args[0]
+        if isinstance(a0, tuple) and len(a0) == 4 and a0[0] == "ite":
+            # any(xs if p else ys) is any(xs) if p else any(ys)
+            return _ite(a0[1], call_ext(I, name, [a0[2]], {}, st, ctx, node, awaited), call_ext(I, name, [a0[3]], {}, st, ctx, node, awaited))
+        its_ = I.iter_items(a0, st, ctx, node)
+        if its_ is not None:
+            ts_ = [I.truth(x, st) for x in its_]
+            return _disj(ts_) if name.endswith("any") else _conj(ts_)
     if name == "builtins.map" and len(args) == 2 and isinstance(args[1], tuple) and args[1][:1] == ("batched",):
         f_ = args[0]
         if f_ == ("builtin", "bytes") and args[1][1][1] in ("b", "raw"):
@@ -340,14 +350,17 @@ def call_ext(I: Any, name: str, args: List[Term], kwargs: Dict[str, Term], st: A
         ast.copy_location(lam, node)
         ast.fix_missing_locations(lam)
         return ("lambda", lam, None, ctx.fi, cap2)
-    if name in ("operator.attrgetter", "operator.itemgetter") and len(args) == 1 and not kwargs and is_c(args[0]) and isinstance(args[0][1], (str, int)):
-        # a synthesised lambda: attrgetter("a.b") == lambda x: x.a.b ; itemgetter(k) == lambda x: x[k]
-        body: ast.expr = ast.Name(id="$x", ctx=ast.Load())
-        if name.endswith("attrgetter") and isinstance(args[0][1], str):
-            for part in args[0][1].split("."):
-                body = ast.Attribute(value=body, attr=part, ctx=ast.Load())
-        else:
-            body = ast.Subscript(value=body, slice=ast.Constant(value=args[0][1]), ctx=ast.Load())
+    if name in ("operator.attrgetter", "operator.itemgetter") and len(args) >= 1 and not kwargs and all(is_c(a_) and isinstance(a_[1], (str, int)) and not isinstance(a_[1], bool) for a_ in args):
+        # a synthesised lambda: attrgetter("a.b") == lambda x: x.a.b ; itemgetter(k) == lambda x: x[k]; several keys give the tuple
+        def one_(key_: Any) -> ast.expr:
+            b_: ast.expr = ast.Name(id="$x", ctx=ast.Load())
+            if name.endswith("attrgetter") and isinstance(key_, str):
+                for part in key_.split("."):
+                    b_ = ast.Attribute(value=b_, attr=part, ctx=ast.Load())
+            else:
+                b_ = ast.Subscript(value=b_, slice=ast.Constant(value=key_), ctx=ast.Load())
+            return b_
+        body: ast.expr = one_(args[0][1]) if len(args) == 1 else ast.Tuple(elts=[one_(a_[1]) for a_ in args], ctx=ast.Load())
         lam = ast.Lambda(args=ast.arguments(posonlyargs=[], args=[ast.arg(arg="$x")], kwonlyargs=[], kw_defaults=[], defaults=[]), body=body)
         ast.copy_location(lam, node)
         ast.fix_missing_locations(lam)
@@ -860,6 +873,23 @@ def _is_datetime_like(v: Term) -> bool:
 def binop(I: Any, op: ast.operator, a: Term, b: Term, st: Any, ctx: Any, node: ast.AST) -> Term:
     sa = T.to_seq(a) if _textlike(a) else None
     sb = T.to_seq(b) if _textlike(b) else None
+    if isinstance(op, ast.Add) and a[0] in ("obj", "tuple", "clist") and b[0] in ("obj", "tuple", "clist"):
+        # list + list / tuple + tuple of known items: a new sequence with the items of both
+        def _kind(v: Term) -> Optional[str]:
+            if v[0] == "tuple":
+                return "tuple"
+            if v[0] == "clist":
+                return "list"
+            ho_ = st.heap.get(v[1]) if st is not None else None
+            return "list" if ho_ is not None and ho_.kind == "list" and not ho_.symbolic and not ho_.name.startswith("gen:") else None
+        ka, kb = _kind(a), _kind(b)
+        if ka is not None and ka == kb:
+            ia, ib = I.iter_items(a, st, ctx, node), I.iter_items(b, st, ctx, node)
+            if ia is not None and ib is not None:
+                if ka == "tuple":
+                    return ("tuple", tuple(ia + ib))
+                from .interp import HeapObj
+                return st.alloc(HeapObj("list", None, {}, list(ia + ib)))
     if isinstance(op, ast.Add):
         if sa is not None and sb is not None:
             if is_c(a) and is_c(b) and type(a[1]) is type(b[1]):
